@@ -27,7 +27,7 @@ class Family:
         c = z3.Int(self.tag + n); self.consts.append(c); self.pre.append(z3.And(c >= lo, c <= hi)); return c
     def text(self, lab, sym_kind=True):
         return Text(present=self.B(lab + '_p'), cdata=self.B(lab + '_cd') if sym_kind else False,
-                    content=self.S(lab + '_c', ['t', ' \n '], register=False), label=lab)
+                    content=self.S(lab + '_c', ['t', ' \n ', 'a&nbsp;&amp;b'], register=True), label=lab)
     def noise(self, lab):
         return Noise(present=self.B(lab + '_p'), kind=self.I(lab + '_k', 0, 3), label=lab)
     def attrs(self, lab, n, pool=APOOL):
@@ -122,6 +122,9 @@ def family_names(f, shape='chain', names=('a', 'b'), anames=None, docs=1, text_s
             root.content = [el('n1', [el('n2', [el('n3')])])]
         elif shape == 'attrs':
             root.content = [el('n1', [el('n2')], attrs=2, text=True)]
+        elif shape == 'rep_opt':
+            # a child that is repeated in one parent occurrence, absent from another occurrence of that parent, and whose name recurs under another parent
+            root.content = [el('n1', [el('n3'), el('n4')]), el('n2'), el('n5', [el('n6')])]
         elif shape == 'deep_pair':
             root.content = [el('n1', [el('n3', [el('n5')])], fixed='a'), el('n2', [el('n4', [el('n6')])], fixed='b')]
         elif shape == 'three_branches':
@@ -201,7 +204,7 @@ def concrete_tree(m, root):
             try: return m.cs(RStr(v))
             except Unsupported: return '?'          # contents the code never inspects (text) stay symbolic
         return v
-    return tree_from_rsym(root, conc)
+    return tree_from_rsym(root, conc, conc_text=lambda v: '?')          # text contents are never concretised (only their presence matters)
 
 OPTS = {'quick_xml_de': {'attribute_prefix': '@', 'text_identifier': '$text', 'derive': 'Serialize, Deserialize', 'sort': 'Unsorted'},
         'serde_xml_rs': {'attribute_prefix': '', 'text_identifier': '$text', 'derive': 'Serialize, Deserialize', 'sort': 'Unsorted'}}
@@ -322,6 +325,7 @@ class ExtendUnion(ParseHarness):
         alts = self.alternatives()
         out = {'root': root, 'trees': trees, 'alt': None}
         if 'err' in self.alts_kinds and len(base) > 1: alts = alts + [('err', None)]
+        if 'rendered' in self.alts_kinds and len(base) > 1: alts = alts + [('rendered', None)]
         if alts:
             kind, order = alts[m.choose(len(alts))]
             if kind == 'err':
@@ -330,6 +334,20 @@ class ExtendUnion(ParseHarness):
                 r = X.reader(last[:cut] + [X.Entry(X.ev_err('cut%d' % cut), pos=7)])
                 res = m.call_fn(m.fns['extend_struct'], [r, deep(out['trees'][-2])])
                 out['alt'] = ('err', cut, res); return out
+            if kind == 'rendered':
+                # the same supply order, but the intermediate structure is rendered after every step: rendering must not change what later steps produce
+                saved = m.char_ops_forbidden; m.char_ops_forbidden = False
+                try:
+                    opts = m.call_fn(m.impls['Options']['quick_xml_de'], [])
+                    final = m.call_fn(m.impls['Element']['to_serde_struct'], [opts], self_val=out['root']).val
+                    r2 = None
+                    for i, sc in enumerate(base):
+                        r = X.reader(list(sc))
+                        res = m.call_fn(m.fns['into_struct'], [r]) if i == 0 else m.call_fn(m.fns['extend_struct'], [r, r2])
+                        r2 = res.p[0]
+                        inter = m.call_fn(m.impls['Element']['to_serde_struct'], [opts], self_val=r2).val
+                finally: m.char_ops_forbidden = saved
+                out['alt'] = ('rendered', (final, inter), r2); return out
             r2 = None; ok = True
             for i, idx in enumerate(order):
                 r = X.reader(list(self.script_of(idx, base)))
@@ -347,6 +365,9 @@ class ExtendUnion(ParseHarness):
             kind, order, r2 = out['alt']
             if kind == 'err':
                 conds.append(('failed extension reports the reader error, not a partial result', r2.variant == 'Err' and r2.p[0].variant == 'QuickXmlError'))
+            elif kind == 'rendered':
+                conds.append(('rendering between the steps does not change the final rendering', SEQ(order[0], order[1])))
+                conds.append(('rendering between the steps does not change the final schema', schema_eq(out['root'], r2)))
             elif r2 is None: conds.append(('alternative supply %s %r succeeds' % (kind, order), False))
             else: conds.append(('schema independent of supply %s %r' % (kind, order), schema_eq(out['root'], r2)))
         return conds
@@ -370,6 +391,10 @@ class ExtendUnion(ParseHarness):
         failed = []
         base_out = {'root': trees[-1], 'trees': trees, 'alt': None}
         failed += [l for l, f in self.assertions(None, base_out) if not am.truth(f)]
+        if 'rendered' in self.alts_kinds and len(docs) > 1:
+            n1 = replay.ask({'op': 'render', 'docs': docs, 'options': [{'preset': 'quick_xml_de'}]})
+            n2 = replay.ask({'op': 'render', 'docs': docs, 'options': [{'preset': 'quick_xml_de'}], 'render_each': True})
+            if n1.get('outputs') != n2.get('outputs'): failed.append('rendering between the steps changes the final rendering: %r vs %r' % (n1.get('outputs'), n2.get('outputs')))
         for kind, order in self.alternatives():
             seq = [docs[i] if i >= 0 else EMPTYDOC[i] for i in order]
             t2, nat2 = native_tree(seq)
